@@ -3,7 +3,7 @@
 
    Value trees (printed by the binaries compiled from the synthesised packages; see
    harness/internal/wire/engine):
-     [k |-> "struct", type, fields : Seq([go, exp, emb, embstruct, hasjson, tagname, tagopts, gomacro, data, v])]
+     [k |-> "struct", type, fields : Seq([go, exp, emb, embstruct, hasjson, tagname, tagopts, omitempty, asstring, gomacro, data, v])]
      [k |-> "union",  iface, nil, dyn, v]        dyn = Go name of the member type held
      [k |-> "slice",  type, nil, elems]    [k |-> "array", type, len, elems]    [k |-> "bytes", type, nil, b64]
      [k |-> "map",    type, nil, entries : Seq([key, kv, v])]     entries sorted by key text, as encoding/json writes them
@@ -26,6 +26,22 @@ FSkipped(f) == \/ (~f.exp /\ ~f.embstruct)
                \/ (f.hasjson /\ f.tagname = "-" /\ f.tagopts = "")
 FName(f) == IF f.hasjson /\ f.tagname # "" THEN f.tagname ELSE f.go
 FFlatten(f) == f.embstruct /\ ~(f.hasjson /\ f.tagname # "") /\ f.v.k = "struct"
+
+(* the `omitempty` option: false, 0, "", nil pointer / interface, empty array, slice, map *)
+IsEmptyValue(tr) ==
+    CASE tr.k \in {"int", "float"} -> tr.lit = "0"
+      [] tr.k = "enum" -> (tr.base = "num" /\ tr.lit = "0") \/ (tr.base = "str" /\ tr.lit = "")
+      [] tr.k = "bool" -> ~tr.v
+      [] tr.k = "string" -> tr.v = ""
+      [] tr.k = "slice" -> tr.nil \/ tr.elems = <<>>
+      [] tr.k = "bytes" -> tr.nil \/ tr.b64 = ""
+      [] tr.k = "map" -> tr.nil \/ tr.entries = <<>>
+      [] tr.k = "array" -> tr.elems = <<>>
+      [] tr.k \in {"ptr", "union"} -> tr.nil
+      [] OTHER -> FALSE
+(* the `string` option: numbers and booleans are written as JSON strings holding their literal *)
+Quotable(tr) == tr.k \in {"int", "float", "bool"} \/ (tr.k = "enum" /\ tr.base = "num")
+LitOf(tr) == IF tr.k = "bool" THEN (IF tr.v THEN "true" ELSE "false") ELSE tr.lit
 
 RECURSIVE Enc(_), EncFields(_), EncSeq(_), EncEntries(_)
 Enc(tr) ==
@@ -50,6 +66,8 @@ EncFields(fs) ==
     ELSE LET f == Head(fs) rest == EncFields(Tail(fs)) IN
          IF FSkipped(f) THEN rest
          ELSE IF FFlatten(f) THEN Enc(f.v).kv \o rest
+         ELSE IF f.omitempty /\ IsEmptyValue(f.v) THEN rest
+         ELSE IF f.asstring /\ Quotable(f.v) THEN << <<FName(f), Str(LitOf(f.v))>> >> \o rest
          ELSE << <<FName(f), Enc(f.v)>> >> \o rest
 
 (* ---- helpers on documents *)
